@@ -36,6 +36,9 @@ CLAIMED = {
  'C16': ('stateless model checking of the real listener threads: exhaustive, preemption-bounded (iterative context bounding) depth-first exploration of schedules under a controlled cooperative scheduler, with state-signature pruning',
          'pywbem/_listener.py is loaded unmodified with shimmed threading/queue/time; every queue/event/sleep/thread start/join operation, callback entry/exit and every access to the shared fields _ind_queue/_callback_thread is a scheduling point; main (start/stop/restart), 1-3 senders running the real request handler, the server thread and the callback thread are explored under every schedule with at most p preemptions per driver family (p=1, p=2 for the join-then-stop family; p=2/3 in thorough). Per execution: every acknowledged indication delivered exactly once to every callback in registration and sender order, refused ones never, stop() returns without raising, no thread or server left, restart works; deadlock detection; each violation schedule is replayed twice.',
          'scheduling points are the synchronisation operations and the two shared fields (GIL-atomic attribute access assumed in between); the HTTP server is a transcription of socketserver serve_forever/shutdown/server_close; pruning assumes the state signature (thread program counters + simple locals + shared state) determines the future', '§5 C16'),
+ 'C14': ('explicit-state breadth-first search over pull-session event histories on the real mock server, to the fixpoint of the reachable state graph, lock-step with a list/cursor reference model',
+         'For every Open operation (7), result size N (0..4, 0..6 thorough), MaxObjectCount value and every pair (and representative triples) of interleaved sessions, all sequences of Pull (3 kinds x 5 MaxObjectCount classes), CloseEnumeration, stale/foreign/made-up contexts and namespace removal are explored breadth-first with deduplication on a canonical state until no new state appears (the depth bound never binds). On every transition: at most MaxObjectCount objects, delivered multiset = traditional result, eos only when nothing remains, progress or eos, wrong-kind pulls refused without consuming, contexts refused after eos/close, no context left in the server table in quiescent states.',
+         'uuid4 replaced by a counter; OpenQueryInstances is reached through a 6-line ExecQuery stub because the mock ExecQuery always raises; states are deduplicated on (delivered set, cursor, server table)', '§5 C14'),
 }
 NOT_YET = 'check not built yet in this round (planned, see DESIGN.md §5); not claimed until it exists'
 
